@@ -471,7 +471,8 @@ func TestC15(t *testing.T) {
 		"the final-CLTV margin is judged at the height at which the HTLC arrived",
 		"SQL store = sqlite (Postgres not available offline); invoice expiry (time- and height-based, InvoiceExpiryWatcher) and the HTLC interceptor are outside the universe",
 		"the set-timeout event advances the clocks by one HtlcHoldDuration and waits for the registry's cancel resolutions (completion signal); the registry's clock is a clock.Clock implementation whose TickAfter is relative to its last Now reading",
-		"states in which a violation made the two stores diverge are not expanded further")
+		"interleaving part: scheduling points are every acquisition of a mutex of invoiceregistry.go (sync import rewritten to the scheduler shim) and every InvoiceDB call of the registry; the event loop's set-timeout transaction (the one store access made without the registry lock) is a schedulable step in the timer cases; other work of lnd's own goroutines runs freely between steps; schedules are enumerated up to the stated preemption bound",
+		"states in which a violation made the two stores diverge are not expanded further (with the known key-value-store finding this prunes AMP states after a settled set id is paid again)")
 	if code := run.Finish(cov); code != 0 {
 		os.Exit(code)
 	}
